@@ -26,6 +26,10 @@ inductive Err where
   | noShellExpression (line : Nat)
   /-- "exit code given, but no shell expression specified" -/
   | exitCodeWithoutCommand (line : Nat)
+  /-- `add_testcase_body`: "testcase output expectation or exit code given, but no shell expression
+  specified" – a body line that is neither command start nor continuation while no command is
+  open -/
+  | bodyWithoutCommand (line : Nat)
   deriving Repr, DecidableEq, Inhabited
 
 /-- `enum CodeType` -/
@@ -137,6 +141,8 @@ def State.addBodyRest {κ} (expOk : List Char → Bool) (s : State κ) (line : L
     else .ok ({ s with command := s.command ++ [l] }, .commandContinue)
   | none =>
     let s := { s with inCommand := false }
+    -- exit codes and output expectations belong to the shell expression above them
+    if s.command.isEmpty then .error (.bodyWithoutCommand (index + 1)) else
     match extractExitCode line with
     | some code =>
       if s.exitCode.isSome then .error (.exitCodeTwice (index + 1))
